@@ -212,8 +212,9 @@ def build_harness(race=False, instrument=False, timeout=900):
     # drop stale caches (disk is limited)
     if os.path.isdir(CACHE):
         olds = sorted(glob.glob(os.path.join(CACHE, "harness-*")), key=os.path.getmtime)
-        for old in olds[:-6]:
-            shutil.rmtree(old, ignore_errors=True)
+        for old in olds[:-30]:   # never a recent one: another check may be running from it
+            if time.time() - os.path.getmtime(old) > 3 * 3600:
+                shutil.rmtree(old, ignore_errors=True)
     os.makedirs(d, exist_ok=True)
     replace = {}
     for f in repo_go_files():
